@@ -281,17 +281,71 @@ def doc_for(seed, i):
                                   oid=str(uuid.uuid5(uuid.NAMESPACE_DNS, "verif-ambiguous-%s-%d" % (doc.id, k_))))
                 except Exception:
                     pass
+        # terminologies: two resources of the same file name in different directories, and one that parses but cannot be
+        # finalised; which one a Section names alternates from document to document
+        tdir = os.environ.get("C19_TERM_DIR")
+        if tdir and i % 4 == 0 and secs_:
+            tops_ = list(doc.sections)
+            which = ["labA", "labB"][(i // 16) % 2]
+            tops_[0]._repository = "file://" + os.path.join(tdir, which, "terminology.xml")
+            if len(tops_) > 1:
+                tops_[1]._repository = "file://" + os.path.join(tdir, "broken" if i % 8 == 0 else ("labB" if which == "labA" else "labA"),
+                                                                 "terminology.xml")
+                if i % 8 == 0:
+                    tops_[1].type = "cell"        # a type the resource that cannot be finalised does describe
     return doc
+
+
+TERM_XML = ('<?xml version="1.0" encoding="UTF-8"?>\n<odML version="1.1">\n'
+            '<section><name>%s</name><type>%s</type></section>\n<section><name>%s</name><type>%s</type>%s</section>\n</odML>\n')
+
+
+def write_terminologies(tdir):
+    for lab, (t1, t2, extra) in {"labA": ("subject", "recording", ""), "labB": ("cell", "setup", ""),
+                                 "broken": ("subject", "cell", "<link>/nowhere/at all</link>")}.items():
+        os.makedirs(os.path.join(tdir, lab), exist_ok=True)
+        with open(os.path.join(tdir, lab, "terminology.xml"), "w") as f:
+            f.write(TERM_XML % (t1, t1, t2, t2, extra))
+    os.environ["C19_TERM_DIR"] = tdir
 
 
 def xprocess_issues(seed, idxs):
     from odml.validation import Validation
+    import odml.validation as ov
     out = {}
     for i in idxs:
         with warnings.catch_warnings():
             warnings.simplefilter("ignore")
             doc = doc_for(seed, i)
-            out[str(i)] = [list(x) for x in issues_of(Validation(doc))]
+            res = [list(x) for x in issues_of(Validation(doc))]
+            # the optional terminology rule, run twice on its own validation: what it reports must not depend on an earlier
+            # run, on what else was validated before in this process, or on the state of the cache
+            first_errors = []
+            for run_ in (1, 2):
+                try:
+                    lv = Validation(doc, validate=False, reset=True)
+                    lv.register_custom_handler("section", ov.section_repository_present)
+                    lv.run_validation()
+                    res += [["#terminology-rule-run", run_]] + [list(x) for x in issues_of(lv)]
+                    if run_ == 1:
+                        first_errors = list(lv.errors)
+                except Exception as exc:
+                    res += [["#terminology-rule-run", run_], ["raised", type(exc).__name__]]
+            # what the two well-formed resources describe is known here (write_terminologies): a Section that names one of
+            # them draws the "not found" issue exactly when its type is not among the resource's types
+            known = {"labA": ("subject", "recording"), "labB": ("cell", "setup")}
+            k1 = res.index(["#terminology-rule-run", 1])
+            k2 = res.index(["#terminology-rule-run", 2])
+            for s_ in list(doc.sections)[:2]:
+                repo = s_.__dict__.get("_repository") or ""
+                lab = repo.split("/")[-2] if repo.endswith("/terminology.xml") else None
+                if lab in known and s_.type and (s_.type in known[lab] or str(s_.type).lower() not in known[lab]):
+                    # (a Section without a type has nothing to look up, and whether 'Recording' finds 'recording' is the
+                    # business of the type lookup, which compares without regard to case: neither is judged)
+                    said = any(e_.obj is s_ and "not found in terminology" in str(e_.msg) for e_ in first_errors)
+                    if said != (s_.type not in known[lab]):
+                        res.append(["#terminology-oracle-mismatch", lab, str(s_.type), "reported-not-found" if said else "no-issue"])
+            out[str(i)] = res
     return out
 
 
@@ -376,6 +430,7 @@ def run(ctx):
         if ctx.time_left() < 0:
             break
     # cross-process repeatability
+    write_terminologies(os.path.join(sdir, "c19terms_%d" % os.getpid()))
     nb = ctx.pick(100, 8000)
     mine = [i for i in range(nb) if ctx.mine(i)]
     for b in range(0, len(mine), 25):
@@ -396,6 +451,15 @@ def run(ctx):
                 rec.monitor("xprocess")
                 rec.evaluation()
                 a, b_ = here[str(i)], there.get(str(i))
+                if hs == "1":
+                    for mm in [x for x in a if x and x[0] == "#terminology-oracle-mismatch"]:
+                        rec.violation("terminology-rule/other-resource-consulted", "doc %d: Section of type %r naming %s: %s" % (
+                            i, mm[2], mm[1], mm[3]), {"xprocess": i, "hashseed": hs})
+                    k1, k2 = a.index(["#terminology-rule-run", 1]), a.index(["#terminology-rule-run", 2])
+                    k3 = min([j_ for j_, x in enumerate(a) if x and x[0] == "#terminology-oracle-mismatch"] or [len(a)])
+                    if a[k1 + 1:k2] != a[k2 + 1:k3]:
+                        rec.violation("repeat/terminology-rule-differs-between-two-runs", "doc %d: %r then %r" % (
+                            i, [x[-1] for x in a[k1 + 1:k2]][:2], [x[-1] for x in a[k2 + 1:k3]][:2]), {"xprocess": i, "hashseed": hs})
                 if a != b_:
                     rec.violation("xprocess/issues-differ-under-other-hash-seed",
                                   "doc %d: %d vs %d issues; first difference %r" % (
